@@ -74,6 +74,7 @@ type Stats struct {
 	BoundCompleted int            `json:"bound_completed"` // -1: none; 1<<30: unbounded
 	Exhaustive     bool           `json:"exhaustive"`
 	CapHit         string         `json:"cap_hit,omitempty"`
+	FromLevel      int            `json:"from_level,omitempty"` // this item explored only the bound levels from here on
 	CacheFull      bool           `json:"cache_full,omitempty"` // the happens-before cache reached its size limit (less pruning, same coverage)
 	Outcomes       map[string]int `json:"outcomes"`
 	Found          []Found        `json:"found,omitempty"`
@@ -308,8 +309,18 @@ func (x *explorer) explore(prefix []vsched.Pick, depth int) {
 
 // Explore runs one scenario (one shard of it) to its bound or until the deadline.
 func Explore(sc *Scenario, shard int, deadline time.Time) *Stats {
+	return ExploreLevels(sc, shard, deadline, 0, Infinite)
+}
+
+// ExploreLevels explores only the bound levels from..to of the scenario's iterative deepening (the pool
+// runs every scenario's lower levels before anybody's deepest level, so that a deadline costs the deepest
+// level of some scenarios instead of all levels of the scenarios that come late).
+func ExploreLevels(sc *Scenario, shard int, deadline time.Time, from, to int) *Stats {
 	t0 := time.Now()
-	st := &Stats{Scenario: sc.Name, Shard: shard, Outcomes: map[string]int{}, BoundCompleted: -1}
+	st := &Stats{Scenario: sc.Name, Shard: shard, Outcomes: map[string]int{}, BoundCompleted: -1, FromLevel: from}
+	if from > 0 {
+		st.BoundCompleted = from - 1 // completed by the item that explored the lower levels (the pool checks that)
+	}
 	nsh := sc.Shards
 	if nsh < 1 {
 		nsh = 1
@@ -320,7 +331,9 @@ func Explore(sc *Scenario, shard int, deadline time.Time) *Stats {
 		bounds = []int{Infinite}
 	} else {
 		for b := 0; b <= sc.Bound; b++ {
-			bounds = append(bounds, b)
+			if b >= from && b <= to {
+				bounds = append(bounds, b)
+			}
 		}
 	}
 	for _, b := range bounds {
